@@ -115,6 +115,8 @@ fn desc_sparse_tail(rng: &mut Rng, repr: &str, n: usize) -> Desc {
 /// Out-of-distribution stream for the failing-input search (orders beyond every "rows per thread"
 /// heuristic: 192.., 256·t ± 1, 513, 770, 1030): only emitted in the `stress` tier.
 fn gen_stress(rng: &mut Rng, emit: &mut dyn FnMut(String)) {
+    // order × CPUs > 2^20 (degree_sequence tally vectors): sparse lists of order 70 000 … 524 289
+    super::c02::gen_degseq_huge(rng, emit);
     for &n in &[193usize, 257, 300, 513, 770, 1030] {
         emit(format!("gen_complete al {n}"));
         emit(format!("q_degseq {}", desc_sparse_tail(rng, "al", n).to_v()));
